@@ -765,6 +765,38 @@ func genC04ab(c *Ctx) {
 			c.Count("stale.out=" + strings.Fields(out + " x")[0])
 		}
 	}
+	// related positions on one engine with a table: the positions of one game line visited in take-back order (P+m, then
+	// P) and forwards, depth 3..5: table entries and PV hints of a sibling line meet the next search; every reported
+	// line must replay (non-decisive values) - a PV assembled from a table hit plus the tail of another line does not
+	n = c.Scale(3000, 120000)
+	for k := 0; k < n; k++ {
+		size := 3 + r.Intn(3)
+		s := latticeCfg(c, size)
+		s.me, s.rw, s.rs = 0, 0, 0
+		s.depth = 3 + r.Intn(map[int]int{3: 3, 4: 2, 5: 1}[size])
+		if s.tbl < 0 || s.tbl > 0 && s.tbl < 64 {
+			s.tbl = []int{0, 1024, 4096}[r.Intn(3)]
+		}
+		line := liveLine(r, size)
+		if len(line) < 3 {
+			continue
+		}
+		i := 1 + r.Intn(len(line)-1)
+		c.Emit(fmt.Sprintf("case C04rel-%d-%d", c.Shard, k))
+		c.Emit("eng A " + s.tok())
+		order := []int{i, i - 1}
+		if i >= 2 && r.Chance(1, 2) {
+			order = append(order, i-2)
+		}
+		if r.Chance(1, 4) {
+			order = []int{i - 1, i, i - 1}
+		}
+		for _, j := range order {
+			kind := []string{"an", "an", "aa"}[r.Intn(3)]
+			out := c.Emit("c04s " + kind + " A " + encPos(line[j]))
+			c.Count("related.out=" + strings.Fields(out + " x")[0] + strings.Fields(out + " x x")[1])
+		}
+	}
 	// one engine reused across 3-5 big-branching positions of one size (7x7/8x8, a few hundred to ~2000 generated
 	// moves, in increasing or in random order of move count): the per-frame move and sort buffers are reused
 	// across searches and have to follow the largest list seen; sorting on, depth 2, table on and off
